@@ -1,17 +1,102 @@
 package main
 
+import "fmt"
+
 const gcp = "grpcgcp"
 
 var commonAssume = []string{
 	"go/ssa (x/tools v0.29.0) SSA of the working tree is the semantics of the code; the symgo executor, cvc5 1.0.3 and z3 5.1.0 are trusted",
-	"bounded claim: holds for the stated universe/unrolling only",
+	"bounded claim: holds for the stated universe / unrolling / value ranges only (coverage.bounds)",
+	"environment stubs of DESIGN.md section 4: fake balancer.ClientConn/SubConn (NewSubConn fails on an empty address list or when the persistent failNew flag is set), ghost mutexes, virtual clock (time.Now redirected to the harness clock), logging/formatting opaque, status.Code summarised on the harness error kinds, getAffinityKeysFromMessage summarised on the harness message type (validated by C11)",
+}
+
+var gbBounds = map[string]string{
+	"connections":  "2 existing + 2 fresh identities, plus one retired connection per slot",
+	"slots":        "3 subConnRef objects, channel list = any prefix of them",
+	"keys":         "2 symbolic bound/unbound keys + 1 key in no table; 0..2 keys per message",
+	"pickers":      "the picker the call is issued on (published or stale, any duplicate-free list of listed slots) and one other published picker",
+	"config":       "minSize, maxSize, watermark, unresponsive_calls, unresponsive_detection_ms full 32-bit symbolic (>=1 where the balancer's defaults guarantee it); fallback symbolic",
+	"streams":      "0 <= streamsCnt < 2^30 per slot",
+	"clock":        "instants in [0, 2^61) ns",
+	"loop unroll":  "code under test: 6 (unwinding assertion on); harness loops: 64",
+	"interference": "pattern P2: one full havoc-under-invariant between Pick and its completion; round-robin wait: 0..2 havocs while blocked",
+}
+
+func caseJobs(entry string, dims map[string][]int, order []string, extra ...string) []Job {
+	jobs := []Job{{Dir: gcp, Harness: gcp, Entry: entry, Flags: append([]string{}, extra...)}}
+	for _, d := range order {
+		var next []Job
+		for _, j := range jobs {
+			for _, v := range dims[d] {
+				nj := j
+				nj.Flags = append(append([]string{}, j.Flags...), fmt.Sprintf("%s=%d", d, v))
+				next = append(next, nj)
+			}
+		}
+		jobs = next
+	}
+	return jobs
+}
+
+func cat(js ...[]Job) []Job {
+	var out []Job
+	for _, j := range js {
+		out = append(out, j...)
+	}
+	return out
+}
+
+func one(entry string, flags ...string) []Job {
+	return []Job{{Dir: gcp, Harness: gcp, Entry: entry, Flags: flags}}
 }
 
 func allProps() []Prop {
+	pick := caseJobs("VerifH_pick", map[string][]int{"method": {0, 1, 2, 3}, "stale": {0, 1}}, []string{"method", "stale"})
+	pickRR := caseJobs("VerifH_pick", map[string][]int{"method": {0, 2, 3}, "stale": {0}}, []string{"method", "stale"}, "rr")
+	done := caseJobs("VerifH_done", map[string][]int{"method": {0, 1, 2, 3}, "on": {0, 1, 2}}, []string{"method", "on"}, "havoc")
+	usc := caseJobs("VerifH_usc", map[string][]int{"arg_sc": {0, 1, 2, 3}}, []string{"arg_sc"})
+	uccs := one("VerifH_uccs")
+	initJ := one("VerifH_init")
+	rr := caseJobs("VerifH_rr", map[string][]int{"interference": {0, 1, 2}}, []string{"interference"}, "rr")
+	for i := range rr {
+		rr[i].Unroll = 5
+		rr[i].NoReplay = true
+	}
+	rrwin := caseJobs("VerifH_rrwin", map[string][]int{"k": {1, 2}}, []string{"k"}, "rr")
+	cnt := one("VerifH_cnt")
+	errpick := one("VerifH_errpick")
+	reserr := one("VerifH_reserr")
+	allGb := cat(initJ, cnt, usc, uccs, reserr, errpick, pick, pickRR, done, rr, rrwin)
+
+	const me = "grpcgcp/multiendpoint"
+	meBounds := map[string]string{
+		"endpoints":  "universe {A,B,C} + one unknown name; lists of 0..3 distinct names",
+		"durations":  "recovery timeout and switching delay symbolic in [0, 2^40) ns, including 0, r<d, r>d, r==d",
+		"timers":     "step harness: one live recovery timer per recovering endpoint, 0..1 orphan (removed endpoint) timer, 0..2 pending delayed switches; timers fire in due order, equal due times in any order; stopped timers do not fire",
+		"clock":      "strictly increasing per timeNow call; instants < 2^50",
+		"k-step":     "real constructor + 1 (quick) / 2 (thorough) fully symbolic operations, initial list a prefix of A,B,C (by symmetry of names)",
+		"loop unroll": "6",
+	}
+	var meJobs []Job
+	for _, o := range []int{0, 1, 2} {
+		meJobs = append(meJobs, Job{Dir: me, Harness: "multiendpoint", Entry: "VerifH_mestep", Flags: []string{fmt.Sprintf("op=%d", o)}, TmoMs: 60000})
+	}
+	for _, n0 := range []int{0, 1, 2, 3} {
+		meJobs = append(meJobs, Job{Dir: me, Harness: "multiendpoint", Entry: "VerifH_me", Flags: []string{fmt.Sprintf("n0=%d", n0), "steps=1"}, Tier: "quick"})
+		meJobs = append(meJobs, Job{Dir: me, Harness: "multiendpoint", Entry: "VerifH_me", Flags: []string{fmt.Sprintf("n0=%d", n0), "steps=2"}, Tier: "thorough", TmoMs: 120000})
+	}
 	return []Prop{
-		{ID: "C04", Jobs: []Job{
-			{Dir: gcp, Harness: gcp, Entry: "VerifH_cnt"},
-			{Dir: gcp, Harness: gcp, Entry: "VerifH_usc"},
-		}, Assume: commonAssume, Bounds: map[string]string{"connections": "2 existing + 2 fresh", "slots": "3"}},
+		{ID: "C13", Jobs: meJobs, Panics: true, Assume: commonAssume, Bounds: meBounds},
+		{ID: "C14", Jobs: meJobs, Assume: commonAssume, Bounds: meBounds},
+		{ID: "C01", Jobs: cat(usc, uccs, pick, done), Assume: commonAssume, Bounds: gbBounds},
+		{ID: "C02", Jobs: cat(usc, uccs, pick, done, rr, rrwin), Assume: commonAssume, Bounds: gbBounds},
+		{ID: "C03", Jobs: cat(initJ, usc, uccs, pick, done), Assume: commonAssume, Bounds: gbBounds},
+		{ID: "C04", Jobs: cat(cnt, initJ, usc, errpick, pick, done), Assume: commonAssume, Bounds: gbBounds},
+		{ID: "C05", Jobs: allGb, Panics: true, Assume: commonAssume, Bounds: gbBounds},
+		{ID: "C06", Jobs: allGb, Progress: true, Assume: commonAssume, Bounds: gbBounds},
+		{ID: "C07", Jobs: cat(initJ, usc, done), Assume: commonAssume, Bounds: gbBounds},
+		{ID: "C08", Jobs: cat(usc, pick, done), Assume: commonAssume, Bounds: gbBounds},
+		{ID: "C09", Jobs: cat(rr, rrwin, pickRR, usc), Assume: commonAssume, Bounds: gbBounds},
+		{ID: "C20", Jobs: cat(initJ, uccs, usc, reserr, done), Assume: commonAssume, Bounds: gbBounds},
 	}
 }
